@@ -562,7 +562,7 @@ def marginal_maxent_dists(dist, k_max=None):
 
     k1 = product_distribution(dist)
 
-    dists = [k0, k1]
+    dists = [k0, k1][:k_max + 1]
     for k in range(k_max + 1):
         if k in [0, 1, n_variables]:
             continue
@@ -579,7 +579,7 @@ def marginal_maxent_dists(dist, k_max=None):
 
     # To match the all-way marginal is to match itself. Again, this is a time
     # savings decision, even though the optimization should be fast.
-    if k_max == n_variables:
+    if k_max == n_variables and n_variables > 1:
         dists.append(dist)
 
     return dists
